@@ -272,10 +272,6 @@ impl RecordProcessor {
         }
     }
 
-    pub(super) fn finish(&mut self) {
-        self.finished = true;
-    }
-
     /// Process a single resource record.
     ///
     /// Returns zero, one or two [`ZoneUpdate`]s that should be emitted for
